@@ -45,6 +45,8 @@ func c01(c *core.Check) {
 	c01FloatLoops(c)
 	c01GrowingPlaceholders(c)
 	c01AttrTag(c)
+	c01StridedLoops(c)
+	c01GridWidth(c)
 	c01OrderedSlices(c)
 
 	p := c.Prog
